@@ -200,7 +200,27 @@ class FdEngine:
                     continue
                 lhs, rv = s["lhs"], s["rv"]
                 src_alias = False
-                if alias_read and alias_read(f, b, si, s):
+                # wrappers: locals holding the owning struct the resource was moved into (tagged ("w", local) in the alias set).
+                # Reading the owning field back out of one re-derives a raw alias, so a later raw release is a second release.
+                wsrc = None
+                if rv["r"] in ("use", "cast"):
+                    wsrc = op_place(rv["a"][0])
+                elif rv["r"] in ("ref", "raw"):
+                    wsrc = rv["pl"]
+                if wsrc is not None and ("w", wsrc["l"]) in aliases:
+                    wnames = [e["n"] for e in wsrc.get("p", []) if isinstance(e, dict) and "f" in e]
+                    if wnames and (_place_adt(f, wsrc), wnames[-1]) in self.own:
+                        src_alias = True
+                    elif not lhs.get("p"):
+                        # a move/copy/borrow of the wrapper, or of an enum/tuple it travels in (`(r as Continue).0`)
+                        aliases.add(("w", lhs["l"]))
+                        aliases.discard(lhs["l"])
+                        continue
+                elif not lhs.get("p"):
+                    aliases.discard(("w", lhs["l"]))
+                if src_alias:
+                    pass
+                elif alias_read and alias_read(f, b, si, s):
                     src_alias = True
                 elif rv["r"] in ("use", "cast"):
                     a = rv["a"][0]
@@ -209,6 +229,9 @@ class FdEngine:
                 elif rv["r"] == "agg":
                     k = rv["kind"]
                     hit = [i for i, a in enumerate(rv["a"]) if op_place(a) is not None and a["pl"]["l"] in aliases]
+                    if not hit and not lhs.get("p") and any(op_place(a) is not None and ("w", a["pl"]["l"]) in aliases for a in rv["a"]):
+                        aliases.add(("w", lhs["l"]))      # Ok(wrapper), (wrapper, x)
+                        continue
                     if hit:
                         adt = k.get("adt")
                         if adt and adt in self.own_idx and any(i in self.own_idx[adt] for i in hit):
@@ -219,6 +242,8 @@ class FdEngine:
                             for a in rv["a"]:
                                 if op_place(a) is not None and a.get("k") == "mv":
                                     aliases.discard(a["pl"]["l"])
+                            if not lhs.get("p"):
+                                aliases.add(("w", lhs["l"]))
                             continue
                         src_alias = True
                 if lhs.get("p"):
@@ -247,11 +272,17 @@ class FdEngine:
                 dest = t["dest"]
                 if not dest.get("p"):
                     name = strip_generics(callee_name(t))
-                    holds = (name in CONTAINER_CALLS or strip_generics(t.get("callee") or "") in CONTAINER_CALLS) and any(op_place(a) is not None and a["pl"]["l"] in aliases for a in t["args"])
+                    is_cont = name in CONTAINER_CALLS or strip_generics(t.get("callee") or "") in CONTAINER_CALLS
+                    holds = is_cont and any(op_place(a) is not None and a["pl"]["l"] in aliases for a in t["args"])
+                    wholds = is_cont and any(op_place(a) is not None and ("w", a["pl"]["l"]) in aliases for a in t["args"])
                     if holds:
                         aliases.add(dest["l"])
                     else:
                         aliases.discard(dest["l"])
+                    if wholds:
+                        aliases.add(("w", dest["l"]))
+                    else:
+                        aliases.discard(("w", dest["l"]))
             elif t["t"] == "return":
                 if status == "owned":
                     if 0 in aliases:
